@@ -319,7 +319,7 @@ func c12Run(w *W, idx int) {
 				} else if raw, ok := e.Raw.Data.(eval.OpEventData); ok {
 					for i := range e.Params {
 						if i >= len(raw.Params) || !valEq(raw.Params[i], e.Params[i]) {
-							w.Fail("opexec-params-changed-by-later-evaluation", "OP_EXEC %s arguments received in one evaluation changed after later evaluations of the same Expr\n%s", e.Op.OpName, h.desc)
+							w.Fail("opexec-params-changed-by-later-evaluation", "OP_EXEC %s arguments received in one evaluation changed after later evaluations of the same Expr: at receipt %s, now %s\n%s", e.Op.OpName, argsText(e.Params), argsText(toIfaces(raw.Params)), h.desc)
 							return
 						}
 					}
@@ -445,7 +445,7 @@ func c12Run(w *W, idx int) {
 					var want interface{}
 					var werr error
 					if op, isCustom := stdCustom[e.Op.OpName]; isCustom {
-						want, werr = op.Fn(e.Params)
+						want, werr = op.Fn(append([]interface{}{}, e.Params...))
 					} else {
 						want, werr = applyBuiltin(e.Op.OpName, e.Params)
 					}
